@@ -87,14 +87,16 @@ ADDENDA = {
     "C05": "Added: every call of substitutions sits behind a factorisation of the same receiver and no path of par() returns around the solver; past its last dominating test an accumulation of the assembly cannot be skipped (path clause).",
     "C09": "Added: the alignment flag alone decides between create_with_alignment and create(speed); the fallback estimate runs for exactly the last label when it has no end time; the inheritance loop of Labels::new covers every label from the first.",
     "C10": "Added: no branch of mul / mul_add_assign depends on the weight.",
+    "C07": "Added: the ring buffer that selects the branch of Excitation::get has exactly nlpf elements.",
+    "C08": "Added: set_speed stores max(f, 1e-6) - the speed reaching create() is the one the user set.",
     "C11": "Added (R8): set_msd_threshold stores clamp(f, 0, 1) on every path and get_msd_threshold returns that element.",
     "C12": "Added: MlpgAdjust::new keeps the stream's GV statistics unchanged, create() hands self.gv to par(), and with a GV model every return of par() is apply_gv's result.",
     "C13": "Added (R6, R7): the MGLSA section and its cascade; the generalised branch of Vocoder::synthesize (df call and arguments, gain b[0], linear interpolation, first-frame / end-of-frame values, b[i] *= gamma for i >= 1 on the first and on every frame); delayed inputs of lsp2lpc maintained as x2 <- x1 <- x.",
     "C14": "Added: conversion stores may be conditional only if the buffer they start from is a copy of the input; the postfilter calls are unconditional in their branch (at most beta > 0).",
-    "C15": "Added: the single call is unconditional (at most h != 0) and the half tone feeds nothing else in Engine::generator.",
+    "C15": "Added: the single call is unconditional (at most h != 0) and the half tone feeds nothing else in Engine::generator; set_additional_half_tone stores its argument unchanged (R6).",
     "C17": "Added (R6): every Ok of Labels::new has one time pair per label (negative = unknown pairs when no times are given); a text line without time stamps pushes a pair of strictly negative constants.",
     "C20": "Added: each setter's store is on every path to the return.",
-    "C03": "Added (R9): no hidden condition state - every getter returns the field its setter writes verbatim, so conditions with equal getter values are equal.",
+    "C03": "Added (R9): no hidden condition state - every getter returns the field its setter writes verbatim, so conditions with equal getter values are equal; Engine has no non-public field. Added (R10): Condition::load_model writes the getter-less fields stage / use_log_gain on every successful path (found a genuine defect, repaired).",
     "C04": "Added: the regex fallback of Question::parse is reached from every error of the fast matcher (path clause); a header without GAMMA / LN_GAIN leaves stage 0 and linear gain (Condition::default).",
     "C18": "Added: a str / String range slice is never discharged by a length argument (char boundaries): only the full range is mechanical.",
 }
